@@ -517,3 +517,49 @@ fn long_collections_keep_their_announced_length() {
 	}
 	assert!(bad.is_empty(), "{} violations, first: {:?}", bad.len(), &bad[..bad.len().min(3)]);
 }
+
+#[test]
+fn scalar_kinds_and_integer_boundaries_survive_the_streaming_path() {
+	let mut bad = vec![];
+	// JSON text -> MessagePack bytes, every integer boundary keeps its value and its integer-ness
+	let cases: [(&str, &[u8]); 12] = [
+		("18446744073709551615", &[0xcf, 0xff, 0xff, 0xff, 0xff, 0xff, 0xff, 0xff, 0xff]),
+		("9223372036854775808", &[0xcf, 0x80, 0, 0, 0, 0, 0, 0, 0]),
+		("9223372036854775807", &[0xcf, 0x7f, 0xff, 0xff, 0xff, 0xff, 0xff, 0xff, 0xff]),
+		("-9223372036854775808", &[0xd3, 0x80, 0, 0, 0, 0, 0, 0, 0]),
+		("4294967296", &[0xcf, 0, 0, 0, 1, 0, 0, 0, 0]),
+		("-2147483649", &[0xd3, 0xff, 0xff, 0xff, 0xff, 0x7f, 0xff, 0xff, 0xff]),
+		("65536", &[0xce, 0, 1, 0, 0]),
+		("-32769", &[0xd2, 0xff, 0xff, 0x7f, 0xff]),
+		("1.5", &[0xcb, 0x3f, 0xf8, 0, 0, 0, 0, 0, 0]),
+		("true", &[0xc3]),
+		("null", &[0xc0]),
+		("\"1\"", &[0xa1, b'1']),
+	];
+	for (text, want) in cases {
+		for wrap in [false, true] {
+			let doc = if wrap { format!("[{text}]") } else { text.to_string() };
+			let mut expect = if wrap { vec![0x91] } else { vec![] };
+			expect.extend_from_slice(want);
+			let mut out = Vec::new();
+			let r = xt::translate_reader(doc.as_bytes(), Some(Format::Json), Format::Msgpack, &mut out);
+			if r.is_err() || out != expect {
+				bad.push(format!("JSON {doc} (reader) -> MessagePack: {:02x?}, expected {:02x?} ({:?})", out, expect, r.err().map(|e| e.to_string())));
+			}
+			// and back
+			let mut json = Vec::new();
+			let r = xt::translate_reader(&expect[..], Some(Format::Msgpack), Format::Json, &mut json);
+			if r.is_err() || String::from_utf8_lossy(&json).trim_end() != doc {
+				bad.push(format!("MessagePack {:02x?} (reader) -> JSON: {:?}, expected {doc}", expect, String::from_utf8_lossy(&json)));
+			}
+			let mut yaml = Vec::new();
+			let mut back = Vec::new();
+			let ok = xt::translate_reader(&expect[..], Some(Format::Msgpack), Format::Yaml, &mut yaml).is_ok()
+				&& xt::translate_reader(&yaml[..], Some(Format::Yaml), Format::Msgpack, &mut back).is_ok();
+			if !ok || back != expect {
+				bad.push(format!("MessagePack {:02x?} -> YAML {:?} -> MessagePack {:02x?}", expect, String::from_utf8_lossy(&yaml), back));
+			}
+		}
+	}
+	assert!(bad.is_empty(), "{} violations, first: {:?}", bad.len(), &bad[..bad.len().min(3)]);
+}
